@@ -14,6 +14,27 @@ CLAIMED = {
             "NOT decided by this check: the accumulation loop and result assembly of derived_observable (sum over inputs, covobs gradients, "
             "array_mode), CObs operators as a whole, independence of how an expression is split, autograd / num_grad exactness. Derivative rule "
             "table is part of the trusted base; transcendental functions are uninterpreted."),
+    "C02": ("symbolic execution of the Gamma-method building blocks (functions and statement slices of gamma_method) with loop invariants; z3 + cvc5; ACORR as a shared uninterpreted sum",
+            "Proof of the parts of Wolff's estimator that are index / window logic in pyerrors: _expand_deltas (zero filling on the lattice of "
+            "the common spacing, for every configuration), _determine_gap (minimal spacing), _calc_gamma (Gamma(t) = sum of products t steps "
+            "apart on the gap-filled chain, identical postcondition for the direct and the FFT branch incl. even padding >= N + lags), "
+            "_compute_drho (Luescher's formula rho(i+k)+rho(|i-k|)-2rho(i)rho(k) from the three-way slice, for all w_max and i), the automatic "
+            "window (first lag with g_W < 0 or w_max-1; bias factor (1+(2W+1)/N)/(1+1/N); dvalue; ddvalue), the tau_exp window (first lag with "
+            "rho - N_sigma drho < 0 or the cap; tail tau_exp |rho(W+1)|; rejection below 8 samples), S = 0 (naive standard error), replica "
+            "extents in units of the spacing.",
+            "DESIGN.md section 6 C02",
+            "Assumed: irfft(|rfft(x,P)|^2) is the linear autocorrelation for even P and lags <= P - len(x); transcendental functions uninterpreted. "
+            "NOT decided: the pair-count normalisation (gamma_div), rho = Gamma/Gamma(0) and the cumulative tau_int with its clamp, dtauint (eq. 42), "
+            "the norm step of _compute_drho, the totals incl. Covobs.errsq, several replicas inside one slice (layouts of the slices are single-ensemble)."),
+    "C03": ("lemmas over the C02 contracts + frame obligations on the gamma_method slices + _parse_kwarg precedence",
+            "Proof: (1) FFT on/off: both branches of _calc_gamma satisfy the same postcondition; (2) relabelling i -> a*i+b: the extent of every "
+            "replica in units of the common spacing is the relabelling-invariant quantity (postcondition of the r_length slice; the invariance "
+            "itself is a separate arithmetic lemma discharged by z3) - this obligation failed on the original tree and was fixed; (3) the window "
+            "slices write only the result attributes of the analysis (frame: value, deltas, idl, names, r_values, shape are frozen); "
+            "(4) _parse_kwarg: explicit argument over per-ensemble dictionary over global default, negative values rejected.",
+            "DESIGN.md section 6 C03",
+            "NOT decided: invariance under adding a constant / scaling with |c|, tau_int >= 1/2 and finiteness, reset of all cached dictionaries "
+            "at entry (history independence), replica renaming / reordering, that derived_observable never reads analysis results."),
     "C04": ("symbolic execution of Obs.__init__ over enumerated name lists (well-formed and malformed) with symbolic samples and configuration lists",
             "Proof for the constructor: every malformed request listed in the property (duplicate / non-string names, unsorted or duplicate "
             "configuration numbers, length mismatches, fewer than five samples, several ensembles, wrong idl type) raises exactly the stated "
